@@ -259,6 +259,62 @@ func apiScenarios() []Scenario {
 			out.Write(diff)
 			return out.Bytes(), nil
 		}},
+		{Name: "format error text", Variants: 1, Walks: true, Run: func(ctx context.Context, e *Env) ([]byte, error) {
+			// several files of which two do not parse: the reported error must not depend on which job ran first
+			files := map[string]string{
+				"a/ok1.proto":  "syntax = \"proto3\";\nmessage A {}\n",
+				"a/bad1.proto": "syntax = \"proto3\";\nmessage {\n",
+				"b/ok2.proto":  "syntax = \"proto3\";\nmessage B { int32 x = 1; }\n",
+				"b/bad2.proto": "syntax = \"proto3\";\nmessage C { int32 = ; }\n",
+				"c/ok3.proto":  "syntax = \"proto3\";\nenum E { E_UNSPECIFIED = 0; }\n",
+			}
+			_, err := bufformat.FormatBucket(ctx, e.bucket(files))
+			if err == nil {
+				return nil, fmt.Errorf("vacuous: formatting invalid files succeeded")
+			}
+			// the error of a parallel run joins the job errors; their order is the order in which jobs failed,
+			// so the text is compared as a sorted multiset of lines
+			lines := strings.Split(err.Error(), "\n")
+			sort.Strings(lines)
+			return []byte(strings.Join(lines, "\n")), nil
+		}},
+		{Name: "breaking v1 overlapping ignore_only", Variants: 2, Walks: false, Run: func(ctx context.Context, e *Env) ([]byte, error) {
+			// ignore_only names a deprecated rule id and its replacement with different paths (both listing orders)
+			entries := []string{"    FIELD_SAME_LABEL:\n      - a\n", "    FIELD_SAME_CARDINALITY:\n      - b\n", "    FILE:\n      - c\n", "    FIELD_SAME_TYPE:\n      - a/one.proto\n"}
+			if e.Variant == 1 {
+				entries[0], entries[1], entries[2], entries[3] = entries[3], entries[2], entries[1], entries[0]
+			}
+			yaml := "version: v1\nbreaking:\n  use:\n    - FILE\n  ignore_only:\n" + strings.Join(entries, "")
+			mk := func(label string, typ string) map[string]string {
+				return map[string]string{
+					"buf.yaml":    yaml,
+					"a/one.proto": "syntax = \"proto3\";\npackage a;\nmessage One { " + label + " " + typ + " f = 1; }\n",
+					"b/two.proto": "syntax = \"proto3\";\npackage b;\nmessage Two { " + label + " " + typ + " f = 1; }\n",
+					"c/thr.proto": "syntax = \"proto3\";\npackage c;\nmessage Thr { " + label + " " + typ + " f = 1; }\n",
+					"d/fou.proto": "syntax = \"proto3\";\npackage d;\nmessage Fou { " + label + " " + typ + " f = 1; }\n",
+				}
+			}
+			cur, err := bufx.BuildImage(ctx, mk("repeated", "int64"))
+			if err != nil {
+				return nil, err
+			}
+			old, err := bufx.BuildImage(ctx, mk("", "int32"))
+			if err != nil {
+				return nil, err
+			}
+			y, err := bufx.ReadBufYAML(yaml)
+			if err != nil {
+				return nil, err
+			}
+			anns, err := bufx.Breaking(ctx, y.ModuleConfigs()[0].BreakingConfig(), cur, old)
+			if err != nil {
+				return nil, err
+			}
+			if len(anns) < 2 {
+				return nil, fmt.Errorf("vacuous overlapping ignore_only scenario: %d annotations", len(anns))
+			}
+			return annotationText(anns), nil
+		}},
 		{Name: "ls-files", Variants: 4, Walks: true, Run: func(ctx context.Context, e *Env) ([]byte, error) {
 			ws, err := bufx.Workspace(ctx, e.bucket(workspace(e.Variant, false)), ".", nil, nil, bufx.NopProviders)
 			if err != nil {
